@@ -150,4 +150,100 @@ Proof.
   - intros k w w1 Hk. now apply back_step_trace.
 Qed.
 
+(* ---------- the refusal: where Panic Guard comes from ---------- *)
+Hypothesis div_answers : forall x y : T, eqb y zero = false -> exists z, div x y = Ok z.
+
+Lemma fwd_rel_nz j bl gl yl k : fwd_rel j bl gl yl -> k < j -> eqb (nth k bl zero) zero = false.
+Proof.
+  intros (H1 & H2 & H3 & H4) Hk. destruct k as [|k]; [exact H2|]. now destruct (H4 (S k) ltac:(lia)) as (_ & _ & Z & _).
+Qed.
+
+Lemma fwd_step_refusal j s : 1 <= j < n -> FwdT j s ->
+  thomas_fwd_body t r (vpush_front (tsub t) zero) (vpush (tsup t) zero) j s = Panic Guard ->
+  let '(u, beta, gamma) := s in
+  exists g, div (sp (j - 1)) beta = Ok g /\ eqb (mn j - sb (j - 1) * g)%A zero = true.
+Proof.
+  destruct Wt as (Hm & Hs & Hp).
+  intros Hj Inv E. destruct s as [[u beta] gamma]. destruct Inv as (bl & Lu & Lg & Lb & _ & Eb & Rel).
+  assert (Zb : eqb beta zero = false) by (rewrite <- Eb; apply (fwd_rel_nz j bl gamma u); [exact Rel|lia]).
+  unfold thomas_fwd_body, vpush_front, vpush in E.
+  rewrite (rd_ok _ (j - 1) zero) in E by (rewrite app_length; cbn [length]; lia). cbn [bind] in E.
+  rewrite app_nth1 in E by lia.
+  destruct (div_answers (sp (j - 1)) beta Zb) as (g & Eg). rewrite Eg in E. cbn [bind] in E.
+  rewrite upd_ok in E by lia. cbn [bind] in E.
+  rewrite (rd_ok (tmain t) j zero) in E by lia. cbn [bind] in E.
+  rewrite (rd_ok (zero :: tsub t) j zero) in E by (cbn [length]; lia). cbn [bind] in E.
+  rewrite (rd_ok _ j zero) in E by (rewrite upd_list_length; lia). cbn [bind] in E.
+  rewrite nth_upd_list, Nat.eqb_refl in E by lia.
+  replace (nth j (zero :: tsub t) zero) with (sb (j - 1)) in E
+    by (destruct j as [|j']; [lia|]; cbn [nth]; now replace (S j' - 1) with j' by lia).
+  exists g. split; [exact Eg|].
+  destruct (eqb (mn j - sb (j - 1) * g)%A zero) eqn:Ez; [reflexivity|]. exfalso.
+  rewrite (rd_ok r j zero) in E by lia. cbn [bind] in E.
+  rewrite (rd_ok u (j - 1) zero) in E by lia. cbn [bind] in E.
+  destruct (div_answers (rr j - sb (j - 1) * nth (j - 1) u zero)%A (mn j - sb (j - 1) * g)%A Ez) as (q & Eq).
+  rewrite Eq in E. cbn [bind] in E. rewrite upd_ok in E by lia. discriminate.
+Qed.
+
+Lemma fwd_loop_refusal m : forall j s, 1 <= j -> j + m = n -> FwdT j s ->
+  for_from m j (thomas_fwd_body t r (vpush_front (tsub t) zero) (vpush (tsup t) zero)) s = Panic Guard ->
+  exists k sk, j <= k < n /\ FwdT k sk /\
+    thomas_fwd_body t r (vpush_front (tsub t) zero) (vpush (tsup t) zero) k sk = Panic Guard.
+Proof.
+  induction m as [|m IH]; intros j s Hj Hm Inv E; cbn [for_from] in E; [discriminate|].
+  destruct (thomas_fwd_body t r (vpush_front (tsub t) zero) (vpush (tsup t) zero) j s) as [s'|p] eqn:Eb.
+  - cbn [bind] in E. destruct (IH (S j) s') as (k & sk & Hk & Ik & Ek); [lia|lia| |exact E|].
+    + apply (fwd_step_trace j s s'); [lia|exact Inv|exact Eb].
+    + exists k, sk. split; [lia|]. split; assumption.
+  - cbn [bind] in E. injection E as ->. exists j, s. split; [lia|]. split; assumption.
+Qed.
+
+(* whenever solve refuses (on well-formed input): the leading diagonal entry is == 0, or the forward sweep reached a
+   step k >= 1 with all relations of the trace below k and the candidate pivot main_k - sub_{k-1} * gamma_k == 0 *)
+Theorem thomas_refusal_trace_lemma : tsolve t r = Panic Guard ->
+  eqb (mn 0) zero = true \/
+  exists k bl gl yl g, 1 <= k < n /\ length bl = k /\ fwd_rel k bl gl yl /\
+    div (sp (k - 1)) (nth (k - 1) bl zero) = Ok g /\ eqb (mn k - sb (k - 1) * g)%A zero = true.
+Proof.
+  destruct Wt as (Hm & Hs & Hp).
+  unfold tsolve. rewrite Hr, Nat.eqb_refl. cbn [negb].
+  rewrite (rd_ok (tmain t) 0 zero) by lia. cbn [bind].
+  destruct (eqb (mn 0) zero) eqn:E0; [left; reflexivity|]. right.
+  rewrite (rd_ok r 0 zero) in H by lia. cbn [bind] in H.
+  destruct (div_answers (rr 0) (mn 0) E0) as (q & Eq). rewrite Eq in H. cbn [bind] in H.
+  rewrite upd_ok in H by (rewrite repeat_length; lia). cbn [bind] in H.
+  set (s0 := (upd_list (repeat zero n) 0 q, mn 0, repeat zero n)) in *.
+  assert (Inv0 : FwdT 1 s0).
+  { exists [mn 0]. unfold s0. rewrite upd_list_length, !repeat_length. cbn [length Nat.sub nth].
+    split; [reflexivity|]. split; [reflexivity|]. split; [reflexivity|]. split; [lia|]. split; [reflexivity|].
+    unfold fwd_rel. cbn [nth]. split; [reflexivity|]. split; [exact E0|].
+    split; [now rewrite nth_upd_list by (rewrite repeat_length; lia)|]. intros k Hk. lia. }
+  unfold for_ in H.
+  destruct (for_from (n - 1) 1 (thomas_fwd_body t r (vpush_front (tsub t) zero) (vpush (tsup t) zero)) s0)
+    as [s'|p] eqn:El.
+  - (* the forward sweep completed: the back substitution cannot refuse *)
+    exfalso. cbn [bind] in H.
+    assert (Inv : FwdT (1 + (n - 1)) s').
+    { refine (for_from_inv_partial FwdT (n - 1) 1 _ s0 s' Inv0 _ El).
+      intros i s s1 Hi. apply fwd_step_trace. lia. }
+    replace (1 + (n - 1)) with n in Inv by lia.
+    destruct s' as [[uf beta] gamma]. destruct Inv as (bl & Lu & Lg & _).
+    unfold usub in H. destruct (Nat.leb_spec 1 n); [|lia]. cbn [bind] in H.
+    unfold for_rev in H. rewrite Nat.sub_0_r in H.
+    destruct (for_rev_from_inv (fun (_ : nat) (w : list T) => length w = n) (n - 1) 0 (thomas_back_body gamma) uf Lu)
+      as (u' & Eu & _); [|rewrite Eu in H; discriminate].
+    intros k w Hk Lw. cbn [Nat.add]. unfold thomas_back_body.
+    rewrite (rd_ok gamma (k + 1) zero) by lia. cbn [bind].
+    rewrite (rd_ok w (k + 1) zero) by lia. cbn [bind].
+    rewrite (rd_ok w k zero) by lia. cbn [bind].
+    rewrite upd_ok by lia. eexists; split; [reflexivity|]. now rewrite upd_list_length.
+  - cbn [bind] in H. injection H as ->.
+    destruct (fwd_loop_refusal (n - 1) 1 s0 ltac:(lia) ltac:(lia) Inv0 El) as (k & sk & Hk & Ik & Ek).
+    pose proof (fwd_step_refusal k sk ltac:(lia) Ik Ek) as Hg.
+    destruct sk as [[u beta] gamma]. destruct Ik as (bl & Lu & Lg & Lb & _ & Ebeta & Rel).
+    destruct Hg as (g & Eg & Ez).
+    exists k, bl, gamma, u, g. split; [lia|]. split; [exact Lb|]. split; [exact Rel|].
+    split; [rewrite Ebeta; exact Eg|exact Ez].
+Qed.
+
 End Trace.
